@@ -325,5 +325,16 @@ def parseEv (cfg : Cfg) (sockA : Bool) (pairs : List (String × String)) : Ev St
     if (truthy (get? h "nts")).isSome then .noise (tsOf h)
     else .msg (mkMsg cfg .search (SMap.write lower h "_source" "search"))
 
+/-- the search listener's unicast filter (`SsdpSearchListener.async_start` / `_on_data`): with a non-multicast target
+    `_target_host = get_host_string(target)` (`ip`, or `ip%scope` for a scoped IPv6 target) and a response whose `_host`
+    differs is dropped after the `man` / NTS tests; `targetHost = ""` is the multicast default (no filter).  The
+    advertisement listener has no such filter. -/
+def parseEvT (cfg : Cfg) (targetHost : String) (sockA : Bool) (pairs : List (String × String)) : Ev String :=
+  match parseEv cfg sockA pairs with
+  | .msg m =>
+    if !sockA && !targetHost.isEmpty && hget (SMap.writeAll lower [] pairs) "_host" != some targetHost then .noise m.ts
+    else .msg m
+  | e => e
+
 end Parse
 end Upnp.C03
